@@ -54,9 +54,11 @@ func init() {
 			{Pkg: "scipipe", Fn: "VxH13extra", Params: p("L", 2), MustReach: []string{"executed"}, MustAssert: []string{"C13.extra-file-keeps-relative-place"}},
 			{Pkg: "scipipe", Fn: "VxH13two", Params: p("L", 3), MustReach: []string{"executed"}, MustAssert: []string{"C13.two.tempdir-subdir-created", "C13.two.moved-to-declared-path"}},
 			{Pkg: "scipipe", Fn: "VxH13fifo", MustReach: []string{"ran"}, MustAssert: []string{"C13.bookkeeping-names.output-at-declared-path"}},
+			{Pkg: "scipipe", Fn: "VxH13dotdot", MustReach: []string{"ran"}, MustAssert: []string{"C13.dotdot.output-at-declared-path"}},
 		},
 		Thorough: []H{
 			{Pkg: "scipipe", Fn: "VxH13fifo", MustReach: []string{"ran"}, MustAssert: []string{"C13.bookkeeping-names.output-at-declared-path"}},
+			{Pkg: "scipipe", Fn: "VxH13dotdot", MustReach: []string{"ran"}, MustAssert: []string{"C13.dotdot.output-at-declared-path"}},
 
 			{Pkg: "scipipe", Fn: "VxH13in", Params: p("L", 8, "class", 1), MustReach: []string{"task-built"}, MustAssert: []string{"C13.input-resolves"}, Native: true},
 			{Pkg: "scipipe", Fn: "VxH13out", Params: p("L", 7, "class", 1), MustReach: []string{"executed"}, MustAssert: []string{"C13.moved-to-declared-path", "C13.write-confined-to-tempdir", "C13.tempdir-subdir-created"}},
